@@ -8,6 +8,7 @@ from ..rules import common
 from ..window import Window, lin, form, show_form
 
 TITLE = "Persistent stores recover every acknowledged write after a crash"
+TECHNIQUE = 'custom static analysis over clang-14 CFG facts: closed set of file-mutating call sites with constant open modes, ordering chains by dominance/search, cursor-window abstract interpretation of the log decoder'
 KV = "iora::storage::KVStore"
 JS = "iora::storage::JsonFileStore"
 KVF, JSF = "iora/storage/kvstore.hpp", "iora/storage/json_file_store.hpp"
